@@ -2424,6 +2424,11 @@ udp_account(UdpGen *g, const Bytes &d)
 			g->certain = false;
 		} else if (g->st == U_NONE) {
 			g->st = U_CONN;
+			// re-opening right after this session closed its connection: whether the
+			// victim has finished tearing the old one down when the new request
+			// arrives (and so takes it) is not ours to know
+			if (g->closed)
+				g->certain = false;
 		}
 		break;
 	case UOP_CACK:
@@ -2436,6 +2441,8 @@ udp_account(UdpGen *g, const Bytes &d)
 			g->closed = true;
 		} else {
 			g->st = U_CONN;
+			if (g->closed)
+				g->certain = false;
 		}
 		break;
 	case UOP_DISC:
